@@ -18,6 +18,7 @@ import ProphyModel.Typing
 import ProphyModel.Copy
 import ProphyModel.Files
 import ProphyModel.FilesL
+import ProphyModel.FilesW
 import ProphyModel.Patch
 import ProphyModel.Accept
 import ProphyModel.WF
@@ -373,6 +374,24 @@ def handle (st : DState) (j : Json) : Except String (DState × Json) := do
         ("cpp", match host with | some b => res (Expr.evalCpp env b) | none => Json.str "syntax"),
         ("prec_safe", match ctree with | some a => Json.bool (Expr.precSafe a) | none => Json.null),
         ("int32_safe", match ctree with | some a => Json.bool (Expr.int32Safe env a) | none => Json.null)])
+  | "prophyc_write_files" =>
+    -- write_files (ProphyModel/FilesW.lean): targets = [[node | null, data text]], files = [[ident, text]] (what exists), full = [ident]
+    let targets ← (← getArr j "targets").toList.mapM (fun e => do
+      let a ← e.getArr?
+      let node : Option Nat := match a[0]!.getNat? with
+        | .ok i => some i
+        | .error _ => none
+      pure ({ node := node, data := (← a[1]!.getStr?).toList.map Char.toNat } : FilesW.Target))
+    let files ← (← getArr j "files").toList.mapM (fun e => do
+      let a ← e.getArr?
+      pure ((← a[0]!.getNat?), (← a[1]!.getStr?).toList.map Char.toNat))
+    let full ← (← getArr j "full").toList.mapM (fun e => e.getNat?)
+    let ids ← (← getArr j "ids").toList.mapM (fun e => e.getNat?)
+    let fs : FilesW.FS := fun i => (files.find? (fun f => f.1 == i)).map (·.2)
+    let (ok, contents) := FilesW.observe (fun i => full.contains i) fs targets ids
+    let text (b : List Nat) : String := String.ofList (b.map Char.ofNat)
+    pure (st, Json.mkObj [("ok", Json.bool ok),
+      ("contents", Json.arr (contents.map (fun c => match c with | some b => Json.str (text b) | none => Json.null)).toArray)])
   | "calc_resolve" =>
     -- the name-resolution loop of calc (ProphyModel/Resolve.lean): vars = [[name, value]], value = int | string | null
     let vars ← (← getArr j "vars").toList.mapM (fun e => do
